@@ -11,6 +11,7 @@ def member_of(d, violating=0.6, ftype=None, opts=None, prefer=(), only=None):
     p.variant = None
     if d.bool(violating):
         ops = operators.applicable(p, aux=bool(only))
+        ops += [o for o in operators.applicable(p, aux=True) if o.get("aux") and o["id"] in prefer and o not in ops]
         if only:
             ops = [o for o in ops if o["id"] in only] or operators.applicable(p)
         pref = [o for o in ops if o["id"] in prefer]
